@@ -506,7 +506,7 @@ theorem bstage_poll {g : Cfg} {a : Rec} {tail : Bytes} {pr : Bool} {rest : List 
         (.writing (run .header raw g.mc).out (run .header raw g.mc).st.isFinal)) c.env.tr) raw :=
       ⟨by show raw ++ c.env.tr.input ++ [] = g.W
           rw [List.append_nil]; exact hwire,
-        hstop, hb, hremle, Or.inr ⟨_, rfl, by show c.env.tr.wlog ++ _ = _; rw [hlog]⟩⟩
+        hstop, hb, hremle, Or.inr ⟨_, rfl, by show c.env.tr.wlog ++ _ = _; rw [hlog], [], rfl⟩⟩
     have := BRes.of_steps (Steps.one hstep') (mkC_link c _ (.refl _)) (bparse_poll ok hst hsc hm hev)
     exact this.mono (by show 1 + (2 * c.env.tr.input.length + 8) ≤ _; omega)
   | parse hst hsc hm hev => exact (bparse_poll ok hst hsc hm hev).mono (by omega)
